@@ -1026,7 +1026,7 @@ func streamIndex(o opts) {
 		size := pick(r, []int64{3, 8, 1000, 1000})
 		mw := newMW(size, httpcache.PathExtractorFromKey)
 		ctx := fmt.Sprintf("index round %d", round)
-		paths := []string{"/a", "/a/b", "/a/b/c", "/x", "/x/y", "/", "/a///b", "//a", "/a/b//", "/x////y", "/a/b///c/"}
+		paths := []string{"/a", "/a/b", "/a/b/c", "/x", "/x/y", "/", "/a///b", "//a", "/a/b//", "/x////y", "/a/b///c/", "/a:b", "/a/b:c", "/x/y:z/w", "/a/b:c:d"}
 		// T-trace against IndexLts (sid 151) when the cache is large enough never to displace anything
 		traced := size == 1000
 		keyNum := map[string]int64{}
@@ -1087,12 +1087,20 @@ func streamIndex(o opts) {
 					emit(ints(4, keyNum[key]), (&toks{}).B(ok))
 				}
 			case 5:
-				pat := pick(r, []string{"/a", "/a/*", "/x/*", "/*", "/a/b/", "//a//b", "/a///b", "/x///*", "/a/b////c"})
-				busy := false
+				pat := pick(r, []string{"/a", "/a/*", "/x/*", "/*", "/a/b/", "//a//b", "/a///b", "/x///*", "/a/b////c", "/a:b", "/a/b:c", "/x/y:z/*", "/a/b:c:d"})
+				// Invalidate is specified for "no request in flight": complete every pending store first
+				var pk []string
 				for k := range pending {
-					_ = k
-					busy = true
+					pk = append(pk, k)
 				}
+				sort.Strings(pk)
+				for _, k := range pk {
+					resp := pending[k]
+					mw.VerifStoreSet(k, resp, time.Hour)
+					delete(pending, k)
+					emit(ints(2, keyNum[k], int64(resp.StatusCode)), &toks{})
+				}
+				busy := false
 				if !busy {
 					n := mw.Invalidate(pat)
 					if traced {
@@ -1113,7 +1121,7 @@ func streamIndex(o opts) {
 					}
 					mw.VerifFlushRemovals()
 					for _, k := range mw.VerifCachedKeys() {
-						p := httpcache.PathExtractorFromKey(k)
+						p := strings.TrimPrefix(k, "GET:") // independent of the extractor under test
 						base := strings.TrimSuffix(pat, "*")
 						nb := "/" + strings.Join(strings.FieldsFunc(base, func(c rune) bool { return c == '/' }), "/")
 						np := "/" + strings.Join(strings.FieldsFunc(p, func(c rune) bool { return c == '/' }), "/")
